@@ -275,8 +275,16 @@ def r_scope(sh, rep):
         if not lit:
             raise AnchorMissing("ScopeResetData literal in %s::open_new_scope" % ty)
         locals_ = {x["pat"]["name"]: x["init"] for x in walk(op["body"]) if x.get("k") == "Local" and x["pat"].get("k") == "Ident" and x.get("init") is not None}
-        dpar = [i["pat"].get("name") for i in cl["sig"]["inputs"] if isinstance(i.get("pat"), dict) and i["pat"].get("name") not in (None, "self")]
-        dname = dpar[0] if dpar else "data"
+        # how close_scope names the saved value of field F: `<param>.F`, or the binding of F when the parameter is
+        # destructured in the signature (`ScopeResetData { f, g }: ScopeResetData`) or by a `let` in the body
+        dpar = [i["pat"] for i in cl["sig"]["inputs"] if isinstance(i.get("pat"), dict) and "ScopeResetData" in (i.get("ty") or "")]
+        dname = dpar[0].get("name") if dpar and dpar[0].get("k") == "Ident" else None
+        destructured = {}
+        pats = [p_ for p_ in dpar if p_.get("k") == "PStruct"] + [n["pat"] for n in walk(cl["body"]) if n.get("k") == "Local" and n["pat"].get("k") == "PStruct" and last(n["pat"].get("p", "")) == "ScopeResetData"]
+        for p_ in pats:
+            for fp in p_.get("fields", []):
+                sub = fp.get("pat") or {}
+                destructured[fp.get("name")] = sub.get("name") or fp.get("name")
         for fld in saved["fields"]:
             init = [fi["e"] for fi in lit[0]["fields"] if fi["name"] == fld["name"]]
             src = init[0] if init else None
@@ -286,9 +294,12 @@ def r_scope(sh, rep):
             if src is not None:
                 mm = re.match(r"^self\.(\w+)\.clone\(\)$", sh.nsrc(rel, src))
                 origin = mm.group(1) if mm else None
-            back = [a for a in walk(cl["body"]) if a.get("k") == "Assign" and sh.nsrc(rel, a["l"]) == "self.%s" % origin and sh.nsrc(rel, a["r"]) == "%s.%s" % (dname, fld["name"])]
+            saved_as = {"%s.%s" % (dname, fld["name"])} if dname else set()
+            if fld["name"] in destructured:
+                saved_as.add(destructured[fld["name"]])
+            back = [a for a in walk(cl["body"]) if a.get("k") == "Assign" and sh.nsrc(rel, a["l"]) == "self.%s" % origin and sh.nsrc(rel, a["r"]) in saved_as]
             n += 1
-            rep.check(origin is not None and len(back) == 1, "R06-SCOPE", "%s#%s#restored-by-assignment" % (ty, fld["name"]), sh.loc(rel, cl), "%s::open_new_scope saves `self.%s` as ScopeResetData.%s but close_scope does not assign it back (`self.%s = %s.%s` not found): entries created inside the scope survive it" % (ty, origin, fld["name"], origin, dname, fld["name"]), sample={"saved_from": origin})
+            rep.check(origin is not None and len(back) == 1, "R06-SCOPE", "%s#%s#restored-by-assignment" % (ty, fld["name"]), sh.loc(rel, cl), "%s::open_new_scope saves `self.%s` as ScopeResetData.%s but close_scope does not assign it back (`self.%s = <saved %s>` not found): entries created inside the scope survive it" % (ty, origin, fld["name"], origin, fld["name"]), sample={"saved_from": origin})
     if n < 3:
         rep.bad("R06-SCOPE", "sites", "", "only %d saved fields found (anchor: 2 in Hydrator, 1 in Environment)" % n)
 
